@@ -38,6 +38,8 @@ BITSET_ONLY = ['not']
 TOSTR = ['to_string', 'to_string_anypad', 'to_string_dflt']
 STR_SYM = ['ctor_sv', 'ctor_sv_pn', 'ctor_sv_p', 'ctor_cs', 'ctor_cs_n']      # effective length can be made <= N by pos / n
 STR_DFLT = ['ctor_sv_dflt', 'ctor_cs_npos', 'ctor_cs_dflt']                   # effective length == SLEN
+# queries with several witnesses need several solver rounds: an incremental back end first
+SOLVERS = {e: ['cadical', 'kissat'] for e in ['ctor_sv', 'ctor_cs', 'observe', 'observe_anypad', 'ref_set_ref_self', 'eq', 'ctor_ull']}
 ALLW = [1, 7, 8, 9, 31, 32, 33, 63, 64, 65]
 BIG = [127, 128, 129]
 
@@ -68,7 +70,9 @@ def mkq(entry, n, w, ub, tier, sn=None, cht=0, scap=None, kh=None):
     # popcount intrinsics are modelled by a loop over the word width; memset/memcpy of the inplace string / of the object
     us = {'ll_ctpop_64.0': 66, 'll_ctpop_32.0': 34, 'll_ctpop_16.0': 18, 'll_ctpop_8.0': 10,
           'll_memset.0': big + 40, 'll_memcpy.0': big + 40, 'll_memmove.0': big + 40, 'll_memmove.1': big + 40}
-    return dict(entry='q_' + entry, cfg=cfg, unwind=big + 3, unwindset=us, solver=['kissat', 'cadical'],
+    # NB the character loop of the string constructors has a symbolic trip count (<= SLEN) and is therefore unrolled big + 3 times;
+    # it cannot be given a tighter bound by name because its number inside k_new_* differs between the plain and the UB build
+    return dict(entry='q_' + entry, cfg=cfg, unwind=big + 3, unwindset=us, solver=SOLVERS.get(entry, ['kissat', 'cadical']),
                 budget=150 if tier == 'quick' else 900, ub=ub, nofunc=ub)
 
 
@@ -142,7 +146,7 @@ def queries(tier, prop='C17'):
                 for e in STR_SYM + STR_DFLT:
                     add(e, n, 0, sn=sn)
         for n in [33, 64, 65]:
-            for e in STR_SYM + STR_DFLT:
+            for e in (STR_SYM if n == 65 else ['ctor_sv']) + STR_DFLT:
                 add(e, n, 0, sn=3)
             for e in STR_DFLT:
                 add(e, n, 0, sn=n)
